@@ -95,10 +95,8 @@ def inline_call(F, bidx, pos, G):
         if t.endswith('&'):
             if an is not None and an['k'] == 'DeclRefExpr' and an.get('vid') is not None:
                 alias[p['vid']] = an
-            elif t.startswith('const '):
-                byval.append((p, a))
             else:
-                return False
+                byval.append((p, a))         # bound to an lvalue expression (`*feats`, a member): a reference local `T & p = <argument>` in the caller
         else:
             byval.append((p, a))
     nb = [_copy(b) for b in G['blocks']]
